@@ -9,7 +9,7 @@ from zv.harness import Shard, split, case_indices, case_seed, digest, guarded
 
 ID = 'C19'
 LEVEL = 'exploration'
-RULE = ('random op sequences (insert/update/delete/clear/bulk update, queries, save+load, pickle round trip) over keys '
+RULE = ('random op sequences (insert/update/delete/clear/bulk update, queries, save+load, pickle round trip, copies made by the constructor or update() from another fsIndex and then changed independently) over keys '
         'drawn from few 6-byte prefixes x few 2-byte suffixes incl. 00.. and ff..; every return value / exception class '
         'is compared with a sorted-dict model. A sequence is non-trivial (and counted once per distinct op-list digest) '
         'if it issued a bounded minKey/maxKey query whose 6-byte prefix was absent from a non-empty index and a save/load.')
@@ -81,9 +81,9 @@ def gen_ops(rnd, n):
         q = rnd.choice(allpres) + rnd.choice(SUFFIXES)
         v = rnd.choice(VALUES) if rnd.random() < 0.5 else rnd.randrange(2 ** 48)
         if r < 0.30:
-            ops.append(('set', k, v))
+            ops.append(('set' if rnd.random() < 0.8 else 'sibset', k, v))
         elif r < 0.40:
-            ops.append(('del', k if rnd.random() < 0.7 else q))
+            ops.append(('del' if rnd.random() < 0.8 else 'sibdel', k if rnd.random() < 0.7 else q))
         elif r < 0.42:
             ops.append(('clear',))
         elif r < 0.46:
@@ -102,8 +102,13 @@ def gen_ops(rnd, n):
             ops.append(('saveload', rnd.choice(VALUES + [rnd.randrange(2 ** 48)])))
         elif r < 0.97:
             ops.append(('pickle', rnd.choice([0, 1, 2, 3])))
-        else:
+        elif r < 0.98:
             ops.append(('ctor',))
+        else:
+            # a second index made from this one (copy constructor, or update() into an index that already holds other keys);
+            # afterwards both are changed independently ('sibset'/'sibdel' go to the copy) and neither may see the other's changes
+            ops.append(('fork', rnd.choice(['ctor', 'update']),
+                        [(rnd.choice(allpres) + rnd.choice(SUFFIXES), rnd.randrange(2 ** 48)) for _ in range(rnd.randrange(3))]))
     return ops
 
 
@@ -122,9 +127,50 @@ def run_case(sh, ops, tmpdir, case):
             return False
         return True
 
+    sibs = []            # [index, model dict] made from idx by 'fork'
+
+    def check_all(i):
+        for (sx, sm) in sibs + [(idx, m.d)]:
+            sh.count('two_index_comparisons')
+            if not cmp(i, 'items-of-an-index-sharing-history-with-a-copy', outcome(lambda: list(sx.items())), ('ok', sorted(sm.items()))):
+                return False
+            if sm and not cmp(i, 'minmax-of-an-index-sharing-history-with-a-copy', outcome(lambda: (sx.minKey(), sx.maxKey(), len(sx))),
+                              ('ok', (min(sm), max(sm), len(sm)))):
+                return False
+        return True
+
     for i, op in enumerate(ops):
         k = op[0]
-        if k == 'set':
+        if sibs and i and ops[i - 1][0] in ('set', 'del', 'clear', 'update', 'sibset', 'sibdel', 'fork'):
+            if not check_all(i - 1):
+                return absent, saved
+        if k in ('sibset', 'sibdel'):
+            if sibs:
+                sx, sm = sibs[-1]
+                if k == 'sibset':
+                    sx[op[1]] = op[2]
+                    sm[op[1]] = op[2]
+                else:
+                    def rd():
+                        del sx[op[1]]
+                    def md():
+                        del sm[op[1]]
+                    if not cmp(i, 'del', outcome(rd), outcome(md)):
+                        return absent, saved
+                continue
+            k = k[3:]               # no copy yet: an ordinary set/del
+        if k == 'fork':
+            pre = dict(op[2])
+            if op[1] == 'ctor':
+                sx, sm = fsIndex(idx), dict(m.d)
+            else:
+                sx = fsIndex(pre)
+                sx.update(idx)
+                sm = dict(pre)
+                sm.update(m.d)
+            sibs = (sibs + [[sx, sm]])[-2:]
+            sh.count('index_copies_made')
+        elif k == 'set':
             idx[op[1]] = op[2]
             m.d[op[1]] = op[2]
         elif k == 'del':
@@ -191,6 +237,8 @@ def run_case(sh, ops, tmpdir, case):
             idx = fsIndex(dict(m.d))
             if not cmp(i, 'ctor-items', outcome(lambda: list(idx.items())), ('ok', [(x, m.d[x]) for x in m.keys()])):
                 return absent, saved
+    if sibs:
+        check_all(len(ops) - 1)
     return absent, saved
 
 
